@@ -778,6 +778,10 @@ class Gen:
             expr = self.num_expr(sc, rng.choice([0, 1, 2]))
         time = rng.choice([["var", "<t>"], ["+", ["var", "<t>"], ["var", "<dt>"]], ["num", 0],
                            ["*", ["num", 0.5], ["var", "<dt>"]]])
+        locs = [n for n in sc.nums if not n.startswith("<") and not n.startswith("$")]
+        if locs and rng.random() < 0.25:
+            # the time of the yield is held in a per-step temporary ('t_out <- <t> + <dt>/2; yield ... at t_out')
+            time = ["var", rng.choice(locs)] if rng.random() < 0.6 else ["+", ["var", "<t>"], ["var", rng.choice(locs)]]
         return ["yield", expr, rng.choice(self.components), time, rng.choice(["final", "t0", "mid_1"]),
                 self.s(expr)]
 
